@@ -35,11 +35,11 @@ def reviewedSites : List (String × String × String) :=
     ("query/criteria.go", "UnaryCriteria.in", "assert"), ("query/criteria.go", "UnaryCriteria.contains", "assert"),
     ("query/criteria.go", "UnaryCriteria.like", "assert"),
     ("index/range_index.go", ".extractDocId", "panic"),               -- keys under an index prefix end with a 36-byte id
-    -- Compare: the second operand has the type of the first because the type ranks are equal
+    -- Compare: the second operand has the type of the first because the type ranks are equal (string, bool, time,
+    -- map; slices - generic or binary, which share a rank - go through the checked `asSlice` since the repair F36)
     ("internal/compare.go", ".toUint64", "assert"), ("internal/compare.go", ".Compare", "assert"),
     ("internal/compare.go", ".Compare", "assert"), ("internal/compare.go", ".Compare", "assert"),
     ("internal/compare.go", ".Compare", "assert"), ("internal/compare.go", ".Compare", "assert"),
-    ("internal/compare.go", ".Compare", "assert"),
     -- reached only with canonical numbers (int64, uint64, float64) after normalisation
     ("util/convert.go", ".ToFloat64", "panic"), ("util/convert.go", ".ToInt64", "panic") ]
 
